@@ -7,8 +7,12 @@ evidence can tell injected from merely configured faults.
 import random
 
 KINDS = ("truncate", "pipe_eof", "bitflip", "set", "pad", "sector_zero", "sector_drop",
-         "sector_dup", "blob")
+         "sector_dup", "blob", "insert", "delete", "swap", "concat")
+# "replace" (the bytes of a valid file of ANOTHER format) is drawn by the case generator,
+# not by gen_plan, because it needs a second encoder
 SECTOR = 256
+# truncation is what the property names first; header/control-byte corruption second
+WEIGHT = {"truncate": 3, "pipe_eof": 2, "set": 2, "bitflip": 2}
 
 
 def _clamp(at, n):
@@ -64,6 +68,29 @@ def apply_fault(f, data: bytes):
         if k == "sector_drop":
             return data[:a] + data[b:], [a], True
         return data[:b] + data[a:b] + data[b:], [b], True
+    if k == "insert":      # a byte slipped in (framing error): everything after it shifts
+        at = min(max(0, f["at"]), n)
+        return data[:at] + bytes([f["val"] & 255]) + data[at:], [at], True
+    if k == "delete":      # a byte lost in transfer
+        if n == 0:
+            return data, [], False
+        at = _clamp(f["at"], n)
+        return data[:at] + data[at + 1:], [at], True
+    if k == "swap":        # two adjacent bytes exchanged (byte-order slip)
+        if n < 2:
+            return data, [], False
+        at = _clamp(f["at"], n - 1)
+        if data[at] == data[at + 1]:
+            return data, [], False
+        b = bytearray(data)
+        b[at], b[at + 1] = b[at + 1], b[at]
+        return bytes(b), [at], True
+    if k == "concat":      # the file followed by (a prefix of) itself: a botched append/merge
+        m = min(n, f["n"])
+        return data + data[:m], ([n] if m else []), m > 0
+    if k == "replace":
+        import base64
+        return base64.b64decode(f["data_b64"]), [0], True
     if k == "blob":
         r = random.Random(f["seed"])
         new = bytes(r.getrandbits(8) for _ in range(f["n"]))
@@ -88,8 +115,12 @@ def apply_plan(plan, data: bytes):
         elif f["kind"] == "sector_dup" and d:
             b = d[0]
             dmg = [x if x < b else x + (len(data) - before) for x in dmg]
-        elif f["kind"] == "blob":
+        elif f["kind"] in ("blob", "replace"):
             dmg = []
+        elif f["kind"] == "insert" and d:
+            dmg = [x if x < d[0] else x + 1 for x in dmg]
+        elif f["kind"] == "delete" and d:
+            dmg = [x if x < d[0] else x - 1 for x in dmg if x != d[0]]
         dmg += d
         eff.append(e)
     return data, sorted(set(dmg)), eff
@@ -132,6 +163,12 @@ def gen_fault(rng, kind, n, offs):
     if kind in ("sector_zero", "sector_drop", "sector_dup"):
         ns = max(1, (n + SECTOR - 1) // SECTOR)
         return {"kind": kind, "sector": rng.choice((0, ns - 1, rng.randrange(ns)))}
+    if kind == "insert":
+        return {"kind": kind, "at": _offset(rng, n, offs), "val": rng.choice((0, 0xFF, rng.getrandbits(8)))}
+    if kind in ("delete", "swap"):
+        return {"kind": kind, "at": _offset(rng, max(0, n - 1), offs)}
+    if kind == "concat":
+        return {"kind": kind, "n": rng.choice((1, 16, 51, n, rng.randint(0, max(1, n))))}
     if kind == "blob":
         return {"kind": kind, "n": rng.choice((0, 1, 2, 5, 17, 19, 51, rng.randint(0, 4096))),
                 "seed": rng.getrandbits(32), "keep": rng.choice((0, 0, 1, 2, 18, 19, 29, 51))}
@@ -147,8 +184,9 @@ def gen_plan(rng, case, enabled=None):
     plan = []
     n = len(case.data)
     offs = (case.offsets(), case.offsets(HEADER_KINDS))
+    weighted = [k for k in kinds for _ in range(WEIGHT.get(k, 1))]
     for _ in range(nf):
-        k = rng.choice(kinds)
+        k = rng.choice(weighted)
         if k == "blob" and plan:
             continue
         plan.append(gen_fault(rng, k, n, offs))
